@@ -94,27 +94,28 @@ type Result struct {
 }
 
 type Sched struct {
-	cfg     Config
-	mu      sync.Mutex
-	gs      [maxG]*G
-	ng      int
-	pending [maxG]*G // spawned, not yet started
-	npend   int
-	ci      int
-	last    *G
-	rr      int
-	steps   int
-	sw      int
-	hash    uint64
-	trace   []Step
-	ntrace  int
-	panics  [16]PanicRec
-	npanic  int
-	exit    *ExitSentinel
-	anon    int
-	ticks   int64
-	tickHit bool
-	kinds   [16]struct {
+	cfg       Config
+	mu        sync.Mutex
+	gs        [maxG]*G
+	ng        int
+	pending   [maxG]*G // spawned, not yet started
+	npend     int
+	ci        int
+	last      *G
+	rr        int
+	steps     int
+	sw        int
+	hash      uint64
+	trace     []Step
+	ntrace    int
+	panics    [16]PanicRec
+	npanic    int
+	exit      *ExitSentinel
+	anon      int
+	ticks     int64
+	tickHit   bool
+	tickPause bool
+	kinds     [16]struct {
 		k string
 		n int
 	}
@@ -284,8 +285,17 @@ func (s *Sched) Locked(d int) { s.self().locked += d }
 func (s *Sched) Now() time.Time { return time.Unix(s.cfg.Epoch, 0).UTC() }
 func (s *Sched) Exit(code int)  { panic(ExitSentinel{code}) }
 
+// PauseTicks suspends the logical loop budget (used by the harness while it exercises a delivered tree:
+// the budget is about the readers).
+//
+//go:norace
+func (s *Sched) PauseTicks(b bool) { s.tickPause = b }
+
 //go:norace
 func (s *Sched) Tick() {
+	if s.tickPause {
+		return
+	}
 	s.ticks++
 	if s.cfg.MaxTicks > 0 && s.ticks > s.cfg.MaxTicks {
 		s.tickHit = true
